@@ -264,7 +264,7 @@ package resource_division
 //@ define rrKeyed(rr map[common_info.QueueID]*remainingRequestedResource) bool = forall k in rr :: rr[k] != nil && rr[k].queue != nil && rr[k].queue.UID == k && rs.cacheOK(rr[k].queue)
 // e is a record of the table / q is a queue with a record in the table
 //@ define fromTable(rr map[common_info.QueueID]*remainingRequestedResource, e *remainingRequestedResource) bool = e != nil && e.queue != nil && e.queue.UID in rr && rr[e.queue.UID] == e
-//@ define inTable(rr map[common_info.QueueID]*remainingRequestedResource, q *rs.QueueAttributes) bool = q.UID in rr && rr[q.UID].queue == q
+//@ define inTable(rr map[common_info.QueueID]*remainingRequestedResource, q *rs.QueueAttributes) bool = q != nil && q.UID in rr && rr[q.UID].queue == q
 // every element of the priority queue is (a boxed pointer to) a record of the table, each at most once
 //@ define pqFromTable(pq *su.PriorityQueue, rr map[common_info.QueueID]*remainingRequestedResource) bool = forall i int :: 0 <= i && i < len(pq.queue.items) ==> typeis(pq.queue.items[i], "*remainingRequestedResource") && fromTable(rr, unbox(pq.queue.items[i], "*remainingRequestedResource"))
 //@ define pqNoDup(pq *su.PriorityQueue) bool = forall i1 int, i2 int :: 0 <= i1 && i1 < i2 && i2 < len(pq.queue.items) ==> unbox(pq.queue.items[i1], "*remainingRequestedResource") != unbox(pq.queue.items[i2], "*remainingRequestedResource")
@@ -306,8 +306,7 @@ package resource_division
 //@     invariant sortedQueues != nil && fresh(sortedQueues) && fresh(sortedQueues.queue.items)
 //@     invariant oldQueuesKept()
 //@     invariant forall i int :: 0 <= i && i < len(sortedQueues.queue.items) ==> typeis(sortedQueues.queue.items[i], "*remainingRequestedResource") && unbox(sortedQueues.queue.items[i], "*remainingRequestedResource") != nil
-//@     invariant forall i int :: 0 <= i && i < len(sortedQueues.queue.items) ==> unbox(sortedQueues.queue.items[i], "*remainingRequestedResource").queue != nil && unbox(sortedQueues.queue.items[i], "*remainingRequestedResource").queue.UID in remainingRequested
-//@     invariant forall i int :: 0 <= i && i < len(sortedQueues.queue.items) ==> remainingRequested[unbox(sortedQueues.queue.items[i], "*remainingRequestedResource").queue.UID] == unbox(sortedQueues.queue.items[i], "*remainingRequestedResource")
+//@     invariant forall i int :: 0 <= i && i < len(sortedQueues.queue.items) ==> inTable(remainingRequested, unbox(sortedQueues.queue.items[i], "*remainingRequestedResource").queue)
 //@     invariant cur(totalResourceAmount) >= 0.0 && cur(totalResourceAmount) <= totalResourceAmount
 //@     invariant rrKeyed(remainingRequested)
 //@     invariant forall q *rs.QueueAttributes :: q != nil ==> fair(q, resourceName) >= old(fair(q, resourceName)) && otherResKept(q, resourceName)
